@@ -9,6 +9,8 @@ import sys
 ROOT = os.path.dirname(os.path.dirname(os.path.abspath(__file__)))
 sys.path.insert(0, ROOT)
 
+from vlib.props import _levels  # noqa: E402
+
 ALL = ["C%02d" % i for i in range(1, 21)]
 
 
@@ -30,8 +32,8 @@ def main():
             "evidence_file": "/verif/evidence/%s.json" % pid,
             "replay_cmd_template": "./check %s --replay {path}" % pid,
             "engine": "lean4-model-proof+correspondence",
-            "level_claimed": {"category": "proof", "text": p.LEVEL_TEXT, "design_ref": p.DESIGN_REF},
-            "level_note": p.LEVEL_NOTE,
+            "level_claimed": {"category": "proof", "text": _levels.level_text(pid, p.LEVEL_TEXT), "design_ref": p.DESIGN_REF},
+            "level_note": _levels.level_note(pid, p.LEVEL_NOTE),
             "technique": p.TECHNIQUE,
         })
     commits = subprocess.run(["git", "-C", "/repo", "log", "--format=%h %s", "--grep=^verif hooks"], stdout=subprocess.PIPE, text=True).stdout.strip().split("\n")
